@@ -29,7 +29,8 @@ func (tb *tokenBucket) adjustOnFailure(statusCode int) {
 	// For server errors like 503 or 5xx, reduce the refill rate exponentially.
 	case statusCode >= 500:
 		tb.failureCount++
-		newRefillRate := max(tb.refillRate*math.Pow(0.5, float64(tb.failureCount)), minRefillRate)
+		// The floor must not lift the rate above the configured one (idealRate may be below minRefillRate).
+		newRefillRate := max(tb.refillRate*math.Pow(0.5, float64(tb.failureCount)), min(minRefillRate, tb.idealRate))
 		tb.refillRate = newRefillRate
 		tb.tokens = 0
 
